@@ -111,6 +111,33 @@ def bindtest() -> int:
     plan.append((p, evs, [("delivered name altered", "C05:name", b_name), ("a delivery removed", "C07:exactly-one-callback-per-valid-broadcast", b_none),
                           ("a delivery duplicated", "C07:exactly-one-callback-per-valid-broadcast", b_twice), ("running flag flipped", "C17:running-flag", b_flag)]))
 
+    # events added later: the dialled port (C19), the caller's day set after the call (C13), an unanswered frame's late answer
+    # met by the next exchange (C03), a running bridge that hears nothing (C17), the login-key script (X06)
+    p, evs = _record("C19", lambda s: s.get("kind") == "dial" and len(s["hist"]) > 2)
+    def dial(e):
+        e[0]["ports"][-1] = 10000 if e[0]["ports"][-1] == 9957 else 9957; return e
+    plan.append((p, evs, [("last dialled port changed", "C19:control-port-dialled", dial)]))
+    p, evs = _record("C13", lambda s: True)
+    def kept(e):
+        i = _first(e, lambda x: x["ev"] == "Next" and len(x["days"]) >= 2); e[i]["after"] = e[i]["after"][1:]; return e
+    plan.append((p, evs[:400], [("a day missing from the caller's set after the call", "C13:day-set-changed-by-the-call", kept)]))
+    p, evs = _record("C17", lambda s: sum(1 for st in s["steps"] if st["do"] == "dgram") >= 1 and s["steps"][0]["do"] in ("start", "enter"))
+    def deaf(e):
+        i = _first(e, lambda x: x["ev"] == "Dgram" and len(x["delivered"]) == 1 and not x.get("cut")); e[i]["delivered"] = []; return e
+    try:
+        plan.append((p, evs, [("a running bridge hears nothing", "C17:holds-the-port-but-does-not-hear", deaf)]))
+        _first(evs, lambda x: x["ev"] == "Dgram" and len(x["delivered"]) == 1 and not x.get("cut"))
+    except StopIteration:
+        plan.pop()
+    px = props.load("X06")
+    ctxx = Ctx("quick", 20260927)
+    sx = [s for s in px.scenarios(ctxx) if any(d["src"] == s["ip"] and d["at"] < 1900 and ("d" in d or len(d.get("raw", [])) >= 41) for d in s["dgrams"])][:1]
+    sx[0]["tid"] = 1
+    evx = px.execute_all(ctxx, sx)[0]
+    def key(e):
+        e[0]["printed"] = [[48, 48]] if e[0]["printed"] != [[48, 48]] else [[48, 49]]; return e
+    plan.append((px, evx, [("another key printed", "X06:prints-the-key-of-the-first-datagram-from-the-device", key)]))
+
     for p, evs, muts in plan:
         base = copy.deepcopy(evs)
         for n, e in enumerate(base):
